@@ -238,6 +238,15 @@ Theorem C16_assert_that_in_first_failure : forall actual quiet done y rest endin
 Proof. exact assert_that_in_first_failure. Qed.
 Print Assumptions C16_assert_that_in_first_failure.
 
+(* the generator that walks the expected structure raises ValueError exactly on the structures that are not well formed
+   (something that is neither a matcher, a list / tuple nor a dict somewhere in it), and every key path it yields extends the
+   path it was given: base_key, then the keys and list indexes down to the matcher *)
+Theorem C16_that_in_generator : forall a path,
+  snd (from_arg a path) = negb (wf_earg a) /\
+  (forall p m, In (p, m) (fst (from_arg a path)) -> exists suffix, p = path ++ suffix).
+Proof. exact from_arg_spec. Qed.
+Print Assumptions C16_that_in_generator.
+
 (* non-vacuity: a nested structure with a list index and two dict keys; the second leaf fails *)
 Example C16_that_in_witness :
   let a := VDict [(KStr (str_of "a"%string), VList [VInt 1; VInt 5]); (KStr (str_of "b"%string), VInt 2)] in
